@@ -35,7 +35,7 @@ UNIT = dict(
     trusted=['DataField::write (m_data->write) is an environment stub: it fails, or appends the bytes of the encoded field values (ghost array, length fixed by the definition) directly after the id at the offset it is given; its own layout is decided in units fields/number',
              'SymbolString accessors: deterministic stubs mirroring model/ss_contracts.h (enforced against symbol.h in unit symbol); std::vector<vector<symbol_t>> / vector<size_t> are fixed-capacity arrays (3 chain parts, ids up to 8 bytes); time() is a clock stub'],
     defines=[('src/lib/ebus/datatype.h', ['UI_FIELD_SEPARATOR'])],
-    enums=[('src/lib/ebus/result.h', 'result_t'), (SYM_H, 'PredefinedSymbol', 'PredefinedSymbol', 'symbol_t')],
+    enums=[('src/lib/ebus/result.h', 'result_t'), (SYM_H, 'PredefinedSymbol', 'PredefinedSymbol', 'symbol_t'), ('src/lib/ebus/datatype.h', 'PartType'), ('src/lib/ebus/datatype.h', 'OutputFormat', 'OutputFormatE')],
     structs=[dict(file=SYM_H, classes=['SymbolString'], cname='SymbolString', member_types={'m_data': 'vsym'}, is_self=False)],
     cfg=dict(
         type_map={'MasterSymbolString': 'SymbolString', 'SlaveSymbolString': 'SymbolString', 'Message': 'struct Message', 'vector<symbol_t>': 'vsym', 'istringstream': 'struct iss'},
@@ -60,6 +60,12 @@ UNIT = dict(
         dict(file=MSG_CPP, name='Message::prepareSlave', cname='Message_prepareSlave', self='struct Message'),
         dict(file=MSG_CPP, name='Message::storeLastData', sig='(size_t index, const MasterSymbolString& data)', cname='Message_storeLastMaster', self='struct Message'),
         dict(file=MSG_CPP, name='Message::storeLastData', sig='(size_t index, const SlaveSymbolString& data)', cname='Message_storeLastSlave', self='struct Message'),
+        dict(file=MSG_CPP, name='Message::decodeLastData', sig='PartType part, bool leadingSeparator', cname='Message_decodeLastData', self='struct Message',
+             pre_subs=[(r'if \(\(outputFormat & OF_RAWDATA\) && !\(outputFormat & OF_JSON\)\) \{.*?\] ";\s*\}', 'if ((outputFormat & OF_RAWDATA) && !(outputFormat & OF_JSON)) { env_rawdata(output); }', 1),
+                       (r'ostream::pos_type startPos = output->tellp\(\);', 'long startPos = env_tellp(output);', 1), (r'output->tellp\(\) > startPos', 'env_tellp(output) > startPos', 1)],
+             cfg=dict(type_map={'ostream': 'struct oss', 'OutputFormat': 'unsigned', 'ssize_t': 'long'}, methods={'read': 'DF_read', 'getCount': 'DF_getCount'},
+                      own_methods={'getIdLength': ('Message_getIdLength', 'self')},
+                      text_subs=[(r'DF_read\(self->m_data, self->m_lastMasterData,', 'DF_read(self->m_data, &self->m_lastMasterData,'), (r'DF_read\(self->m_data, self->m_lastSlaveData,', 'DF_read(self->m_data, &self->m_lastSlaveData,'), (r'\bssize_t\b', 'long')])),
         # chained messages
         dict(file=MSG_H, inline_class='Message', name='getIdLength', cname='Message_getIdLength', self='struct Message'),
         dict(file=MSG_H, inline_class='ChainedMessage', name='getIdLength', cname='Chained_getIdLength', self='struct Message', pre_subs=[_IDS0]),
@@ -97,6 +103,7 @@ _B = 'ids of up to 6 further bytes, up to 12 encoded data bytes'
 R('prepare', 'h_prepare', None, defines=_D, cost=30, bounded=_B, **_U)
 R('prepare_slave', 'h_prepare_slave', None, defines=_D, cost=30, bounded=_B, **_U)
 R('store', 'h_store', None, defines=_D, cost=30, bounded='telegram parts of up to 32 symbols', **_U)
+R('decode', 'h_decode', None, defines=_D, cost=10, **_U)
 R('chain_prepare', 'h_chain_prepare', None, defines=_DS2, cost=30, timeout=900, bounded='chains of 2 parts, ids up to 3 further bytes, 2 data bytes per part', **_US2)
 R('chain_store', 'h_chain_store', None, defines=_DS2, cost=40, timeout=900, bounded='chains of 2 parts, ids up to 3 further bytes, 2 data / 3 slave bytes per part', **_US2)
 R('chain_prepare3', 'h_chain_prepare', None, defines=_DS3, cost=200, timeout=1800, tier='thorough', bounded='chains of up to 3 parts, ids up to 4 further bytes, 3 data bytes per part', **_US3)
